@@ -18,10 +18,11 @@ VERIF = os.path.dirname(os.path.dirname(os.path.abspath(__file__)))
 VENV_PY = "/venv/bin/python"
 
 EXIT_OK, EXIT_VIOLATION, EXIT_INCONCLUSIVE = 0, 1, 2
+MAX_BAD_PER_SHARD = 6
 
 
 class Case:
-    def __init__(self, name, fn, timeout=10, old_timeout=20, shards=1, validate=2, cert_first=False, try_old=True, search=40, feas_timeout_ms=2000, pc_first=False, expect_obligations=True, deriv=False):
+    def __init__(self, name, fn, timeout=10, old_timeout=20, shards=1, validate=2, cert_first=False, try_old=True, search=40, feas_timeout_ms=2000, pc_first=False, expect_obligations=True, deriv=False, val_tol=None):
         self.name = name
         self.fn = fn
         self.timeout = timeout
@@ -34,6 +35,7 @@ class Case:
         self.feas_timeout_ms = feas_timeout_ms
         self.pc_first = pc_first
         self.expect_obligations = expect_obligations
+        self.val_tol = val_tol
 
 
 _G = {}
@@ -141,6 +143,9 @@ def work(job):
 
         ex = Explorer(feas_timeout_ms=case.feas_timeout_ms)
         counter = 0
+        n_bad = 0
+        out["skipped"] = 0
+        case_budget_s = float(os.environ.get("VERIF_CASE_BUDGET_S", "900" if tier == "quick" else "3600"))
         first = True
         for path, P in ex.run(body):
             out["paths"] += 1
@@ -151,9 +156,15 @@ def work(job):
                 counter += 1
                 if not mine:
                     continue
+                if n_bad >= MAX_BAD_PER_SHARD or time.time() - t0 > case_budget_s:
+                    # the case already has undischarged obligations (or ran out of budget): do not burn solver time on the rest
+                    out["skipped"] += 1
+                    continue
                 rec = _decide(decide, ob, case, P, path, model_to_inputs)
                 rec["path"] = out["paths"] - 1
                 out["obligations"].append(rec)
+                if rec["status"] != "proved":
+                    n_bad += 1
             first = False
         out["slow"] = sorted([(o["secs"], o["name"], o["route"]) for o in out["obligations"]], reverse=True)[:3]
         out["forced"] = ex.infeasible
@@ -247,7 +258,7 @@ def _validate(modname, tier, case, body, seed, funcs):
                     except ShadowError:
                         continue
                     val["compared"] += 1
-                    tol = 1e-4 if ob.deriv else 1e-6
+                    tol = case.val_tol if case.val_tol is not None else (1e-4 if ob.deriv else 1e-6)
                     for side, sv, cv in (("lhs", sl, lv[i]), ("rhs", sr, rv[i])):
                         if not (abs(sv - cv) <= tol * (1.0 + abs(cv))):
                             if len(val["mismatches"]) < 5:
@@ -325,6 +336,7 @@ def finish(mod, modname, prop, args, seed, cases, results, t0):
     paths = 0
     validation = {"points": 0, "compared": 0, "reached_checks": 0}
     lemma_count = 0
+    skipped_cases = []
     for r in results:
         functions.update(r.get("functions", []))
         if r["shard"] == 0:
@@ -348,6 +360,8 @@ def finish(mod, modname, prop, args, seed, cases, results, t0):
                 failing.append((r["case"], {"name": cf["failure"]["name"], "status": "concrete-failure", "candidates": [cf["inputs"]], "msg": cf["failure"]["msg"], "route": "validation-run"}))
             if v["points"] == 0 and case_by_name[r["case"]].validate:
                 inconclusive.append("%s: no validation point satisfied the assumptions (vacuity guard)" % r["case"])
+        if r.get("skipped"):
+            skipped_cases.append((r["case"], r["skipped"]))
         for rec in r["obligations"]:
             n_ob += 1
             solver_s += rec["secs"]
@@ -414,6 +428,9 @@ def finish(mod, modname, prop, args, seed, cases, results, t0):
             violations.append(path)
         # obligations that failed symbolically but whose names did not reproduce are still covered by the reproduced ones
 
+    for cname, nsk in skipped_cases:
+        if not violations and not any(cname in s for s in inconclusive):
+            inconclusive.append("%s: %d obligation(s) skipped after earlier undischarged ones / budget" % (cname, nsk))
     wall = time.time() - t0
     from . import loader
 
